@@ -70,6 +70,18 @@ theorem version_test_is_equality :
     that moment) -/
 theorem observer_registry_shared : observerStoredDirectly = true := by decide
 
+/-- the registry is not locked while a target's ApplyConfig runs, so a callback may register
+    another observer (or do anything else that takes the registry's lock) without blocking the
+    reload goroutine -/
+theorem observer_callbacks_outside_lock :
+    observerCallbackHeld ≠ [] ∧ observerCallbackHeld.all (fun h => h == .none) = true := by decide
+
+/-- SetValues does not build the new file from the in-memory map (`m` is not touched): it merges
+    into what Parser.Read returns at the time of the write, as `Conf.setValuesModel` does -/
+theorem setvalues_merges_into_file :
+    (lockFacts.filter (fun mf => mf.name == "SetValues")).all (fun mf => mf.accesses.isEmpty) = true ∧
+    (lockFacts.any (fun mf => mf.name == "SetValues")) = true := by decide
+
 /-- D38: GetIntSet appends when `err == nil` -/
 theorem intset_keeps_valid : intSetErrOp = "==" := by decide
 
